@@ -47,6 +47,9 @@ pub enum Val {
     /// a well-formed TLV section given as a `TypeLengthValues` iterator on which `next()` has already
     /// been called `advance` times (a partly consumed iterator is still the whole section)
     Tlvs { items: Vec<(u8, usize, u32)>, advance: usize },
+    /// a payload type of the caller's own (`CustomP`): it assembles its bytes outside the writer - takes the buffer out of
+    /// the `Writer`, extends it, puts it back - and, with `scribble`, leaves junk in bytes 14..16 of what it found there
+    Custom { len: usize, seed: u32, scribble: bool },
 }
 
 #[derive(Clone, Debug, PartialEq)]
@@ -123,6 +126,7 @@ impl Val {
             Val::Section { len, seed } => json!({"section": {"len": len, "seed": seed}}),
             Val::Type(ty) => json!({"type": enc::TYPE_CODES[*ty].0}),
             Val::Tlvs { items, advance } => json!({"tlvs": {"items": items.iter().map(|(k, l, s)| json!({"kind": k, "len": l, "seed": s})).collect::<Vec<_>>(), "advance": advance}}),
+            Val::Custom { len, seed, scribble } => json!({"custom": {"len": len, "seed": seed, "scribble": scribble}}),
         }
     }
     pub fn from_json(v: &Value) -> Option<Val> {
@@ -160,6 +164,10 @@ impl Val {
         }
         if let Some(o) = v.get("type") {
             return Some(Val::Type(ty_of(o)?));
+        }
+        if let Some(o) = v.get("custom") {
+            let (len, seed) = ls(o)?;
+            return Some(Val::Custom { len, seed, scribble: o.get("scribble").and_then(|b| b.as_bool()).unwrap_or(false) });
         }
         if let Some(o) = v.get("tlvs") {
             let items: Option<Vec<(u8, usize, u32)>> = o
@@ -358,7 +366,8 @@ pub fn gen_addr(t: &mut Tape) -> RefAddr2 {
 }
 
 pub fn gen_val(t: &mut Tape, big_per_mille: u32) -> Val {
-    match t.weighted(&[4, 4, 2, 4, 3, 3, 2, 1, 2]) {
+    match t.weighted(&[8, 8, 4, 8, 6, 6, 4, 2, 4, 1]) {
+        9 => Val::Custom { len: gen_len(t, big_per_mille), seed: gen_seed(t), scribble: false },
         8 => {
             let n = t.usize_in(0, 4);
             let items: Vec<(u8, usize, u32)> = (0..n)
@@ -498,6 +507,20 @@ pub fn gen_history(t: &mut Tape, big_per_mille: u32) -> History {
 /// number of bytes after the fixed part at build time, that number at the moment of the call, or the value of another
 /// set_length call (so that the same value is set twice). Unrelated random values never coincide with these.
 pub fn relate_explicit_lengths(t: &mut Tape, h: &mut History) {
+    // (in histories, half of the custom payloads leave junk in the length field of the fixed part they find in the buffer)
+    for op in h.ops.iter_mut() {
+        match op {
+            Op::Payload { v: Val::Custom { scribble, .. }, .. } => *scribble = t.coin(),
+            Op::Payloads { vs, .. } => {
+                for v in vs.iter_mut() {
+                    if let Val::Custom { scribble, .. } = v {
+                        *scribble = t.coin();
+                    }
+                }
+            }
+            _ => {}
+        }
+    }
     if !t.chance(1, 5) {
         return;
     }
@@ -644,6 +667,7 @@ fn retype(like: &Val, t: &mut Tape, big: u32) -> Val {
         Val::Section { .. } => Val::Section { len: gen_len(t, big), seed: gen_seed(t) },
         Val::Type(_) => Val::Type(t.below(12) as usize),
         Val::Tlvs { .. } => Val::Tlvs { items: vec![(t.byte(), t.usize_in(0, 9), gen_seed(t))], advance: t.usize_in(0, 2) },
+        Val::Custom { scribble, .. } => Val::Custom { len: gen_len(t, big), seed: gen_seed(t), scribble: *scribble },
     }
 }
 
@@ -666,6 +690,7 @@ pub fn ref_encoding(v: &Val) -> Option<Vec<u8>> {
         Val::TupleType { ty, len, seed } => enc::enc_tlv(enc::TYPE_CODES[*ty].1, &tlv_value(enc::TYPE_CODES[*ty].1, *seed, *len)),
         Val::Section { len, seed } => Some(fill(*seed, *len)),
         Val::Type(ty) => Some(vec![enc::TYPE_CODES[*ty].1]),
+        Val::Custom { len, seed, .. } => Some(fill(*seed, *len)),
         Val::Tlvs { items, .. } => {
             let mut out = Vec::new();
             for (k, l, s) in items {
@@ -680,7 +705,7 @@ pub fn ref_encoding(v: &Val) -> Option<Vec<u8>> {
 pub fn ref_size(v: &Val) -> usize {
     match v {
         Val::Int { ty, .. } => INT_WIDTHS[*ty],
-        Val::Bytes { len, .. } | Val::Section { len, .. } => *len,
+        Val::Bytes { len, .. } | Val::Section { len, .. } | Val::Custom { len, .. } => *len,
         Val::Addr(a) => NEED[enc::family_code(a) as usize],
         Val::Tlv { len, .. } | Val::TupleU8 { len, .. } | Val::TupleType { len, .. } => 3 + *len,
         Val::Type(_) => 1,
@@ -739,7 +764,7 @@ pub fn content(v: &Val) -> Vec<u8> {
     match v {
         Val::Tlv { kind, len, seed } | Val::TupleU8 { kind, len, seed } => tlv_value(*kind, *seed, *len),
         Val::TupleType { ty, len, seed } => tlv_value(enc::TYPE_CODES[*ty].1, *seed, *len),
-        Val::Bytes { len, seed } | Val::Section { len, seed } => fill(*seed, *len),
+        Val::Bytes { len, seed } | Val::Section { len, seed } | Val::Custom { len, seed, .. } => fill(*seed, *len),
         // the section bytes, encoded by the harness itself
         Val::Tlvs { items, .. } => gen::enc_tlv_list(&items.iter().map(|(k, l, s)| (*k, fill(*s, *l))).collect::<Vec<_>>()),
         _ => Vec::new(),
@@ -749,6 +774,26 @@ pub fn content(v: &Val) -> Vec<u8> {
 impl<'a> WriteToHeader for AnyP<'a> {
     fn write_to(&self, w: &mut Writer) -> io::Result<usize> {
         write_val(self.0, self.1, w)
+    }
+}
+
+/// A payload type defined by the caller (here: the harness). Its `write_to` does not go through `io::Write`: it takes the
+/// buffer out of the writer (`Writer: Default`), works on the plain `Vec`, and hands it back - all public API.
+pub struct CustomP<'a> {
+    pub data: &'a [u8],
+    pub scribble: bool,
+}
+impl<'a> WriteToHeader for CustomP<'a> {
+    fn write_to(&self, w: &mut Writer) -> io::Result<usize> {
+        let mut bytes = std::mem::take(w).finish();
+        if self.scribble && bytes.len() >= 16 {
+            // whatever it leaves in the length field of a fixed part it finds there is not its business: `build` states the length
+            bytes[14] = 0xAB;
+            bytes[15] = 0xCD;
+        }
+        bytes.extend_from_slice(self.data);
+        *w = Writer::from(bytes);
+        Ok(self.data.len())
     }
 }
 
@@ -770,6 +815,7 @@ pub fn write_val(v: &Val, data: &[u8], w: &mut Writer) -> io::Result<usize> {
         Val::TupleType { ty, .. } => (TYPES[*ty], data).write_to(w),
         Val::Section { .. } => TypeLengthValues::from(data).write_to(w),
         Val::Type(ty) => TYPES[*ty].write_to(w),
+        Val::Custom { scribble, .. } => CustomP { data, scribble: *scribble }.write_to(w),
         Val::Tlvs { advance, .. } => advanced(data, *advance).write_to(w),
     }
 }
@@ -796,6 +842,7 @@ pub fn to_bytes_val(v: &Val, data: &[u8]) -> io::Result<Vec<u8>> {
         Val::TupleType { ty, .. } => (TYPES[*ty], data).to_bytes(),
         Val::Section { .. } => TypeLengthValues::from(data).to_bytes(),
         Val::Type(ty) => TYPES[*ty].to_bytes(),
+        Val::Custom { scribble, .. } => CustomP { data, scribble: *scribble }.to_bytes(),
         Val::Tlvs { advance, .. } => advanced(data, *advance).to_bytes(),
     }
 }
@@ -865,6 +912,14 @@ fn payload(b: Builder, v: &Val, data: &[u8], by_ref: bool) -> io::Result<Builder
                 b.write_payload(it)
             }
         }
+        Val::Custom { scribble, .. } => {
+            let c = CustomP { data, scribble: *scribble };
+            if by_ref {
+                b.write_payload(&c)
+            } else {
+                b.write_payload(c)
+            }
+        }
     }
 }
 
@@ -897,6 +952,7 @@ fn batch_native(b: Builder, vs: &[Val], datas: &[Vec<u8>]) -> io::Result<Builder
         Val::TupleType { .. } => b.write_payloads(vs.iter().zip(datas).map(|(v, d)| (TYPES[if let Val::TupleType { ty, .. } = v { *ty } else { 0 }], d.as_slice()))),
         Val::Section { .. } => b.write_payloads(datas.iter().map(|d| TypeLengthValues::from(d.as_slice()))),
         Val::Type(_) => b.write_payloads(vs.iter().map(|v| TYPES[if let Val::Type(t) = v { *t } else { 0 }]).collect::<Vec<_>>()),
+        Val::Custom { .. } => b.write_payloads(vs.iter().zip(datas).map(|(v, d)| CustomP { data: d.as_slice(), scribble: matches!(v, Val::Custom { scribble: true, .. }) })),
         Val::Tlvs { .. } => b.write_payloads(vs.iter().zip(datas).map(|(v, d)| advanced(d.as_slice(), if let Val::Tlvs { advance, .. } = v { *advance } else { 0 }))),
     }
 }
@@ -944,11 +1000,38 @@ pub fn failing_calls_noise() {
     });
 }
 
+pub fn with_addresses_from_sockets(vc: u8, proto: u8, addr: &RefAddr2, salt: usize) -> Builder {
+    use std::net::{Ipv4Addr, Ipv6Addr, SocketAddr, SocketAddrV4, SocketAddrV6};
+    let scope = 1 + (salt as u32 % 5);
+    match imp::mk_addr2(addr) {
+        ppp::v2::Addresses::IPv4(a) => Builder::with_addresses(vc, protocol_of(proto), (SocketAddr::V4(SocketAddrV4::new(a.source_address, a.source_port)), SocketAddr::V4(SocketAddrV4::new(a.destination_address, a.destination_port)))),
+        ppp::v2::Addresses::IPv6(a) => Builder::with_addresses(
+            vc,
+            protocol_of(proto),
+            (SocketAddr::V6(SocketAddrV6::new(a.source_address, a.source_port, 9, scope)), SocketAddr::V6(SocketAddrV6::new(a.destination_address, a.destination_port, 0, scope + 1))),
+        ),
+        ppp::v2::Addresses::Unspecified => {
+            let v4 = SocketAddr::V4(SocketAddrV4::new(Ipv4Addr::new(192, 0, 2, 1 + (salt % 7) as u8), 1000 + salt as u16 % 50));
+            let ip6 = if salt % 2 == 0 { Ipv4Addr::new(198, 51, 100, 7).to_ipv6_mapped() } else { Ipv6Addr::new(0x2001, 0xdb8, 0, 0, 0, 0, 0, 2) };
+            let v6 = SocketAddr::V6(SocketAddrV6::new(ip6, 443, 0, scope));
+            if salt % 4 < 2 {
+                Builder::with_addresses(vc, protocol_of(proto), (v4, v6))
+            } else {
+                Builder::with_addresses(vc, protocol_of(proto), (v6, v4))
+            }
+        }
+        other => Builder::with_addresses(vc, protocol_of(proto), other),
+    }
+}
+
 /// Execute a history against the real builder.
 pub fn execute(h: &History) -> Trace {
     let mut trace = Trace { ops: Vec::new(), build: None, build_panic: None };
     let made = crate::engine::guard(|| match &h.ctor {
         Ctor::New { vc, afp } => Builder::new(*vc, *afp),
+        // one history in three hands the constructor a pair of socket addresses instead of the address value (IPv4 / IPv6;
+        // for "no address" a pair of different families, the IPv6 one IPv4-mapped half of the time): the same header
+        Ctor::WithAddresses { vc, proto, addr } if (h.ops.len() + *vc as usize) % 3 == 0 => with_addresses_from_sockets(*vc, *proto, addr, h.ops.len()),
         Ctor::WithAddresses { vc, proto, addr } => Builder::with_addresses(*vc, protocol_of(*proto), imp::mk_addr2(addr)),
     });
     let mut b = match made {
@@ -979,6 +1062,11 @@ pub fn execute(h: &History) -> Trace {
                         // no bounds at all (from_fn)
                         let items = vs.iter().zip(datas.iter()).map(|(v, d)| AnyP(v, d.as_slice()));
                         match vs.len() % 3 {
+                            // exact count unknown, upper bound absurdly loose (an unbounded source cut off by map_while)
+                            1 if vs.len() % 2 == 0 => {
+                                let mut it = items;
+                                b.write_payloads((0..usize::MAX).map_while(move |_| it.next()))
+                            }
                             1 => b.write_payloads(items.filter(|_| true)),
                             2 => {
                                 // ... and not fused: once it has said None it would go on with other items if asked again (a
